@@ -48,12 +48,14 @@ type vmCase struct {
 }
 
 type vmTable struct {
-	F      *core.Func
-	Cases  map[string]*vmCase
-	Order  []string
-	HasDef bool
-	instr  types.Object // the code.Instr parameter
-	thread types.Object
+	F       *core.Func
+	Cases   map[string]*vmCase
+	Order   []string
+	HasDef  bool
+	instr   types.Object // the code.Instr parameter
+	thread  types.Object
+	instrs  map[types.Object]bool // code.Instr parameters of followed helper functions
+	Helpers []*core.Func          // helper functions whose bodies were read as part of a case
 }
 
 func isOpcodeSwitch(f *core.Func, s *ast.SwitchStmt) bool {
@@ -82,8 +84,12 @@ func extractVM(c *core.Check) *vmTable {
 	}
 	c.Analysed(f)
 	tab := &vmTable{F: f, Cases: map[string]*vmCase{}}
-	tab.thread = paramObj(f, "t")
-	tab.instr = paramObj(f, "i")
+	// the thread and instruction parameters are found by their types, not their names
+	tab.thread = paramOfType(f, "vm.thread")
+	tab.instr = paramOfType(f, "code.Instr")
+	if tab.instr == nil || tab.thread == nil {
+		return nil
+	}
 	var top *ast.SwitchStmt
 	for _, st := range f.Body.List {
 		if s, ok := st.(*ast.SwitchStmt); ok && isOpcodeSwitch(f, s) {
@@ -121,6 +127,7 @@ func extractVM(c *core.Check) *vmTable {
 				}
 			}
 			collect(cc.Body)
+			tab.followHelpers(vc)
 			tab.analyse(vc)
 			tab.Cases[op] = vc
 			tab.Order = append(tab.Order, op)
@@ -162,7 +169,83 @@ func (tab *vmTable) inspectCase(vc *vmCase, fn func(ast.Node) bool) {
 
 func (tab *vmTable) isInstrOperand(e ast.Expr) bool {
 	sel, ok := core.Unparen(e).(*ast.SelectorExpr)
-	return ok && sel.Sel.Name == "Operand" && identObj(tab.F.Info(), sel.X) == tab.instr
+	if !ok || sel.Sel.Name != "Operand" {
+		return false
+	}
+	o := identObj(tab.F.Info(), sel.X)
+	return o != nil && (o == tab.instr || tab.instrs[o])
+}
+
+// paramOfType returns the first parameter of f whose type (pointers stripped) ends in suffix.
+func paramOfType(f *core.Func, suffix string) types.Object {
+	for _, fl := range f.Type.Params.List {
+		for _, n := range fl.Names {
+			o := f.Info().Defs[n]
+			if o == nil {
+				continue
+			}
+			if strings.HasSuffix(strings.TrimPrefix(o.Type().String(), "*"), suffix) {
+				return o
+			}
+		}
+	}
+	return nil
+}
+
+// followHelpers extends the nodes of a case by the bodies of the functions of
+// package vm that the case hands its instruction or its thread to as an
+// argument (`case code.Capref: v.capref(t, i)`): an opcode handler extracted
+// into a method is read like the inline code.  The instruction parameters of
+// such helpers are instruction variables too.
+func (tab *vmTable) followHelpers(vc *vmCase) {
+	f := tab.F
+	seen := map[*core.Func]bool{f: true}
+	for changed := true; changed; {
+		changed = false
+		var add []*core.Func
+		tab.inspectCase(vc, func(n ast.Node) bool {
+			call, ok := n.(*ast.CallExpr)
+			if !ok {
+				return true
+			}
+			h := f.CalleeFunc(call)
+			if h == nil || seen[h] || h.Pkg != f.Pkg || h.Lit != nil {
+				return true
+			}
+			takes := false
+			for _, fl := range h.Type.Params.List {
+				for _, nm := range fl.Names {
+					o := h.Info().Defs[nm]
+					if o == nil {
+						continue
+					}
+					ts := strings.TrimPrefix(o.Type().String(), "*")
+					if strings.HasSuffix(ts, "code.Instr") {
+						takes = true
+						if tab.instrs == nil {
+							tab.instrs = map[types.Object]bool{}
+						}
+						tab.instrs[o] = true
+					}
+					if strings.HasSuffix(ts, "vm.thread") {
+						takes = true
+					}
+				}
+			}
+			if takes {
+				seen[h] = true
+				add = append(add, h)
+			}
+			return true
+		})
+		for _, h := range add {
+			changed = true
+			tab.Helpers = append(tab.Helpers, h)
+			for _, st := range h.Body.List {
+				vc.Nodes = append(vc.Nodes, st)
+			}
+		}
+	}
 }
 
 func typeStr(t types.Type) string {
@@ -505,7 +588,7 @@ func extractEmits(c *core.Check) ([]*emitSite, []string) {
 						}
 						return true
 					})
-				} else if ix, ok := core.Unparen(call.Args[1]).(*ast.IndexExpr); ok && exprStr(ix.X) == "builtin" {
+				} else if ix, ok := core.Unparen(call.Args[1]).(*ast.IndexExpr); ok && isPkgVar(info, ix.X, "builtin") {
 					es.Ops = append(es.Ops, builtinOps...)
 				}
 				es.Ops = uniq(es.Ops)
@@ -513,14 +596,20 @@ func extractEmits(c *core.Check) ([]*emitSite, []string) {
 					problems = append(problems, fmt.Sprintf("%s: opcode expression %s not resolved", c.Prog.Position(call.Pos()), es.OpExpr))
 				}
 				es.OpndType = operandType(info, call.Args[2])
-				if p, ok := byStmt[prevStmt[x]]; ok {
+				// the emit directly before this one: statements in between that do not
+				// touch the code generator (logging, binding a local) cannot emit
+				ps := prevStmt[x]
+				for ps != nil && !mentionsType(info, ps, "codegen.codegen") {
+					ps = prevStmt[ps]
+				}
+				if p, ok := byStmt[ps]; ok {
 					es.PrevPush = p
 				}
 				byStmt[x] = es
 				out = append(out, es)
 			case *ast.AssignStmt:
 				// c.obj.Program[pc].Opcode = code.X
-				if len(x.Lhs) == 1 && len(x.Rhs) == 1 && strings.HasSuffix(core.PathOf(x.Lhs[0]), ".Opcode") {
+				if len(x.Lhs) == 1 && len(x.Rhs) == 1 && isFieldOf(info, x.Lhs[0], "code.Instr", "Opcode") {
 					if op, ok := constOpcode(info, x.Rhs[0]); ok {
 						c.Analysed(f)
 						out = append(out, &emitSite{F: f, Node: x, Ops: []string{op}, OpExpr: exprStr(x.Rhs[0]), Keeps: "Dload", OpndType: "int"})
@@ -532,6 +621,20 @@ func extractEmits(c *core.Check) ([]*emitSite, []string) {
 	}
 	sort.SliceStable(out, func(i, j int) bool { return out[i].Node.Pos() < out[j].Node.Pos() })
 	return out, problems
+}
+
+// mentionsType reports whether n contains an expression whose type (pointers stripped) ends in suffix.
+func mentionsType(info *types.Info, n ast.Node, suffix string) bool {
+	found := false
+	ast.Inspect(n, func(x ast.Node) bool {
+		if e, ok := x.(ast.Expr); ok && !found {
+			if t := info.TypeOf(e); t != nil && strings.HasSuffix(strings.TrimPrefix(t.String(), "*"), suffix) {
+				found = true
+			}
+		}
+		return !found
+	})
+	return found
 }
 
 func operandType(info *types.Info, e ast.Expr) string {
@@ -568,7 +671,7 @@ func enclosingCaseTokens(f *core.Func, n ast.Node) []string {
 		if cc.Pos() <= n.Pos() && n.End() <= cc.End() {
 			var toks []string
 			for _, e := range cc.List {
-				if sel, ok := e.(*ast.SelectorExpr); ok && exprStr(sel.X) == "parser" {
+				if sel, ok := e.(*ast.SelectorExpr); ok && isPkgRef(f.Info(), sel.X, "compiler/parser") {
 					toks = append(toks, sel.Sel.Name)
 				}
 			}
@@ -579,4 +682,24 @@ func enclosingCaseTokens(f *core.Func, n ast.Node) []string {
 		return true
 	})
 	return out
+}
+
+// isPkgVar reports whether e is an identifier denoting the package-level variable with the given name (not a local of that name).
+func isPkgVar(info *types.Info, e ast.Expr, name string) bool {
+	id, ok := core.Unparen(e).(*ast.Ident)
+	if !ok {
+		return false
+	}
+	v, ok := info.Uses[id].(*types.Var)
+	return ok && v.Name() == name && v.Pkg() != nil && v.Parent() == v.Pkg().Scope()
+}
+
+// isPkgRef reports whether e is the name of an imported package whose path ends in suffix, whatever the import is called locally.
+func isPkgRef(info *types.Info, e ast.Expr, suffix string) bool {
+	id, ok := core.Unparen(e).(*ast.Ident)
+	if !ok {
+		return false
+	}
+	pn, ok := info.Uses[id].(*types.PkgName)
+	return ok && strings.HasSuffix(pn.Imported().Path(), suffix)
 }
